@@ -353,3 +353,40 @@ def sem(e: ast.AST, aliases: Dict[str, str]) -> str:
         for k, v in aliases.items():
             t = re.sub(rf"(?<![\w.]){re.escape(k)}\b", v, t)
     return t
+
+
+def owner_closure(run, owners) -> Set[str]:
+    """Qualified names of the owner functions plus the private helpers that serve only them: a private function (`_x`) all of whose call
+    sites in the repository lie in functions already in the closure.  Who-may-write rules accept a write inside this closure -- moving part
+    of an owner into a helper of its own does not widen who can reach the state."""
+    closure = set(owners)
+    funcs = sorted(run.project.functions.values(), key=lambda f: f.qualname)  # including helpers the normal form has absorbed
+    by_name: Dict[str, List[FunctionInfo]] = {}
+    for f in funcs:
+        by_name.setdefault(f.name, []).append(f)
+    # call sites by callee *name* (conservative: any call spelled with that name counts)
+    sites: Dict[str, Set[str]] = {}
+    for f in funcs:
+        for c in own_nodes(f.node):
+            if isinstance(c, ast.Call):
+                nm = c.func.id if isinstance(c.func, ast.Name) else (c.func.attr if isinstance(c.func, ast.Attribute) else None)
+                if nm:
+                    sites.setdefault(nm, set()).add(f.qualname)
+            elif isinstance(c, (ast.Name, ast.Attribute)) and isinstance(getattr(c, "ctx", None), ast.Load):
+                # a bare reference (passed as a callback) counts as a use from that function
+                nm = c.id if isinstance(c, ast.Name) else c.attr
+                if nm in by_name and nm.startswith("_"):
+                    sites.setdefault(nm, set()).add(f.qualname)
+    for caller_q, callee_q in getattr(run.project, "inlined_edges", set()):
+        sites.setdefault(callee_q.rsplit(".", 1)[-1], set()).add(caller_q)  # calls the normal form has replaced by the helper's body
+    changed = True
+    while changed:
+        changed = False
+        for f in funcs:
+            if f.qualname in closure or not f.name.startswith("_") or f.name.startswith("__"):
+                continue
+            users = sites.get(f.name, set()) - {f.qualname}
+            if users and users <= closure and len(by_name.get(f.name, [])) == 1:
+                closure.add(f.qualname)
+                changed = True
+    return closure
